@@ -1,9 +1,9 @@
 From Coq Require Extraction.
 From Coq Require Import ExtrOcamlBasic.
 From OlaBase Require Import Bytes.
-From C16 Require Import Gen Model TimeVal PModel PAbs.
+From C16 Require Import Gen Model TimeVal PModel PAbs PIntr.
 Extraction Language OCaml.
 Extraction "model.ml" io_witness N.div_eucl init do_reg do_cancel do_advance do_exec next_in
-  pool_alloc pool_pick step run ms_to_us poll_once poll_sleep runonce
+  pool_alloc pool_pick step run ms_to_us poll_once poll_sleep runonce runonce_intr p_runx
   p_run p_log p_proj p_ep_mapsize p_sel_size p_cfg_ok p_ops_ok p_dcfg_ok p_script_ok p_d_ok p_ops_ok_d ieval tv_us
   EP_MAX_EVENTS EP_READ_FLAGS EP_MAX_FREE_DESCRIPTORS POLL_INTERVAL_SECOND POLL_INTERVAL_USECOND.
